@@ -16,7 +16,7 @@ theorem extractAndVerify_ok_iff (verify : VerifyFn) (sum : SumFn) (m : SignedMsg
       m.data ≠ [] ∧ m.fromPeerId ≠ [] ∧ m.signature.validate = true ∧
       idB58Decode m.fromPeerId = some id ∧ extractPublicKey id = some pk ∧
       verifyWithPublic verify sum m.signature ctx pk m.data = .good := by
-  sorry
+  exact extractAndVerify_ok_iff' verify sum m ctx pk id
 
 /-- Soundness: an accepted message was signed by a private key of the public key embedded in
 its claimed sender ID, over exactly the body built from the verifier's context, the hash
@@ -26,7 +26,9 @@ theorem extractAndVerify_sound (S : SigScheme) (H : HashFam) (m : SignedMsg) (ct
     idB58Decode m.fromPeerId = some id ∧ extractPublicKey id = some pk ∧
     ∃ sk d, S.pub sk = pk ∧ H.sum m.signature.hashType m.data = some d ∧
       m.signature.sigData = S.sign sk (signBody ctx m.signature.hashType d) := by
-  sorry
+  obtain ⟨_, _, _, hid, hpk, hgood⟩ := (extractAndVerify_ok_iff _ _ _ _ _ _).mp h
+  obtain ⟨_, d, sk, hsum, hpub, hsig⟩ := (C02.verify_iff_created S H _ _ _ _).mp hgood
+  exact ⟨hid, hpk, sk, d, hpub, hsum, hsig⟩
 
 /-- Completeness: the honest message verifies. -/
 theorem honest_accepted (S : SigScheme) (H : HashFam) (sk ctx data : Bytes) (t : Int) (s : Signature)
@@ -35,7 +37,19 @@ theorem honest_accepted (S : SigScheme) (H : HashFam) (sk ctx data : Bytes) (t :
     extractAndVerify S.verify H.sum
       { fromPeerId := idB58Encode (idFromPublicKey (S.pub sk)), signature := s, data := data } ctx
       = .ok (S.pub sk, idFromPublicKey (S.pub sk)) := by
-  sorry
+  have hrt := C10.text_roundtrip_key (S.pub sk) hpk
+  apply (extractAndVerify_ok_iff _ _ _ _ _ _).mpr
+  refine ⟨hd, ?_, ?_, hrt, C10.extract_idFromPublicKey (S.pub sk) hpk,
+    C02.created_verifies S H sk ctx data t s hs⟩
+  · intro e
+    simp only at e
+    rw [e, idB58Decode_nil] at hrt
+    cases hrt
+  · obtain ⟨hv, h, _, rfl⟩ := newSignature_some _ _ _ _ _ _ hs
+    unfold Signature.validate
+    simp only
+    rw [hv, isEmpty_eq_false_of_ne_nil (S.sig_nonempty sk _)]
+    rfl
 
 /-- Tamper resistance: ANY message `m'` accepted under ANY context `ctx'` that carries the
 signature bytes of an honest signature (made by `sk` over `(ctx, t, data)`) has the same
@@ -48,7 +62,10 @@ theorem tamper_rejected (S : SigScheme) (H : HashFam) (sk ctx data : Bytes) (t :
     (hsig : m'.signature.sigData = s.sigData)
     (hok : extractAndVerify S.verify H.sum m' ctx' = .ok (pk', id')) :
     pk' = S.pub sk ∧ ctx' = ctx ∧ m'.signature.hashType = t ∧ H.sum t m'.data = H.sum t data := by
-  sorry
+  obtain ⟨_, _, _, _, _, hgood⟩ := (extractAndVerify_ok_iff _ _ _ _ _ _).mp hok
+  apply C02.created_binds S H sk ctx data t s hs m'.signature.hashType ctx' pk' m'.data
+  rw [← hgood]
+  exact verifyWithPublic_congr _ _ _ _ _ _ _ rfl hsig.symm
 
 /-- Changing the signature bytes to anything that was not produced with the claimed sender's
 private key over exactly this body is rejected. -/
@@ -57,13 +74,22 @@ theorem forged_signature_rejected (S : SigScheme) (H : HashFam) (m : SignedMsg) 
       H.sum m.signature.hashType m.data = some d → S.pub sk = pk →
       m.signature.sigData ≠ S.sign sk (signBody ctx m.signature.hashType d)) :
     ∃ e, extractAndVerify S.verify H.sum m ctx = .error e := by
-  sorry
+  cases hr : extractAndVerify S.verify H.sum m ctx with
+  | error e => exact ⟨e, rfl⟩
+  | ok p =>
+    obtain ⟨pk, id⟩ := p
+    obtain ⟨hid, hpk, sk, d, hpub, hsum, hsig⟩ := extractAndVerify_sound S H m ctx pk id hr
+    exact absurd hsig (hno id pk d sk hid hpk hsum hpub)
 
 /-- Non-vacuity with the toy scheme: an honest message is accepted. -/
 example : ∃ s, newSignature (ToySig.sign (List.replicate 32 4)) ToyHash.sum [1] 1 [8] = some s ∧
     extractAndVerify ToySig.verify ToyHash.sum
       { fromPeerId := idB58Encode (idFromPublicKey (List.replicate 32 4)), signature := s, data := [8] } [1]
       = .ok (List.replicate 32 4, idFromPublicKey (List.replicate 32 4)) := by
-  sorry
+  have h : (newSignature (ToySig.sign (List.replicate 32 4)) ToyHash.sum [1] 1 [8]).isSome = true := by
+    decide
+  obtain ⟨s, hs⟩ := Option.isSome_iff_exists.mp h
+  exact ⟨s, hs, honest_accepted ToySig ToyHash (List.replicate 32 4) [1] [8] 1 s
+    (List.length_replicate ..) (by decide) hs⟩
 
 end Bifrost.Props.C01
